@@ -14,7 +14,7 @@ use crate::common::*;
 use crate::text::codes;
 use jiff::civil::{Date, DateTime, Time};
 use jiff::fmt::rfc2822;
-use jiff::fmt::strtime::{self, BrokenDownTime};
+use jiff::fmt::strtime::BrokenDownTime;
 use jiff::tz::{Offset, TimeZone};
 use jiff::{Timestamp, Zoned};
 use serde_json::{json, Value};
@@ -691,4 +691,25 @@ pub fn probe(a: &Args) {
         Err(e) => println!("parse error: {e}"),
     }
     println!("rfc2822 = {:?}", rfc2822::parse(&text).map(|z| z.to_string()));
+    println!("zoned = {:?}", text.parse::<Zoned>().map(|z| z.to_string()));
+    println!("timestamp = {:?}", text.parse::<Timestamp>().map(|z| z.to_string()));
+}
+
+/// jv probetz STRING: TimeZone::posix on the string (triage aid).
+pub fn probetz(a: &Args) {
+    let s = a.rest.get(0).cloned().unwrap_or_default();
+    let r = guard(|| TimeZone::posix(&s).map(|tz| format!("{tz:?}")));
+    println!("{r:?}");
+}
+
+/// jv probetzif HEXFILE: both TZif readers on the bytes in the file (hex).
+pub fn probetzif(a: &Args) {
+    let hexs = std::fs::read_to_string(a.rest.get(0).unwrap()).unwrap();
+    let hexs = hexs.trim();
+    let data: Vec<u8> = (0..hexs.len() / 2).map(|i| u8::from_str_radix(&hexs[2 * i..2 * i + 2], 16).unwrap()).collect();
+    println!("jiff: {:?}", TimeZone::tzif("X/Y", &data).map(|tz| {
+        let t = Timestamp::from_second(1_700_000_000).unwrap();
+        format!("{:?} {:?}", tz.to_offset_info(t), tz.preceding(t).next())
+    }));
+    println!("static: {:?}", crate::shared::TzifOwned::parse(None, &data).map(|_| "ok"));
 }
